@@ -15,7 +15,7 @@ CHECKS = {
             "stage A (regex tokenisers, load_from_json) is outside the claim; the regex engine itself is a contract model in the line-splitting part; execute_text is a nondeterministic stub inside the loop harness; token lists are bounded in length and alphabet",
             "solver-based: CBMC bounded model checking + z3 over MIR-derived path conditions"),
     "C02": ("K+M", "model_checking",
-            "the REAL token glue, parser ladder and interpreter, translated from MIR, on every well-formed token list of length <= 6, every token list of length <= 4 and a seeded sample of lengths 7-8 (quick) / every token list of length <= 8 (thorough) over {number, + - * / ( )}: parentheses nested 9 / 17 / 33 / 40 deep (quick; every depth 1..48, 64, 100 thorough) around x + y times z evaluate to (x + y) z; every well-formed expression evaluates to the value given by precedence, left associativity, parentheses, sign prefixes, juxtaposition = '+' and x/0 = 0 for ALL real operand values (shapes enumerated exhaustively, values symbolic, z3); plus NumberItem::calculate on all f64 pairs (CBMC); a text round trip of a result through format!(\"{:.Pe}\") and parse is modelled as rounding to P+1 significant digits, so a result that is 'tidied' that way is found and replayed against the exact double operation; add_token_location never records a span that starts or ends inside a recognised token (a later pattern cannot claim characters of an earlier token)",
+            "the REAL token glue, parser ladder and interpreter, translated from MIR, on every well-formed token list of length <= 6, every token list of length <= 4 and a seeded sample of lengths 7-8 (quick) / every token list of length <= 8 (thorough) over {number, + - * / ( )}: parentheses nested 9 / 17 / 33 / 40 deep (quick; every depth 1..48, 64, 100 thorough) around x + y times z evaluate to (x + y) z; every well-formed expression evaluates to the value given by precedence, left associativity, parentheses, sign prefixes, juxtaposition = '+' and x/0 = 0 for ALL real operand values (shapes enumerated exhaustively, values symbolic, z3); plus NumberItem::calculate on all f64 pairs (CBMC); a text round trip of a result through format!(\"{:.Pe}\") and parse is modelled as rounding to P+1 significant digits, so a result that is 'tidied' that way is found and replayed against the exact double operation; add_token_location never records a span that starts or ends inside a recognised token (a later pattern cannot claim characters of an earlier token); a literal of one run of 19 / 20 symbolic digits is the number written (no integer type in the reader's way)",
             "literal spelling / spacing / k-M-G suffixes are stage A (regex) and outside; f64 rounding of individual operations outside (real relaxation); expression length bounded",
             "solver-based: z3 over SMT generated from the MIR of the real parser/interpreter + CBMC"),
     "C03": ("M", "translation_validation",
@@ -31,11 +31,11 @@ CHECKS = {
             "f64 rounding of individual operations is outside (real relaxation); the two spellings p% / %p are regex; Variable operands (dyn Any downcast) are outside",
             "solver-based: z3 over SMT generated from the MIR of the real functions"),
     "C06": ("M+K", "translation_validation",
-            "convert_money and MoneyItem::calculate for symbolic rates and currencies: amount / rate(A) * rate(B), identity for A = B, left currency kept, scaling by numbers, money/money as plain ratio; update_currency(name, rate) succeeds exactly for a configured code or alias and changes the (symbolic) rate table at exactly that currency to the new rate, so that with convert_money decided for an arbitrary rate table a changed rate takes effect for exactly that currency in all later conversions; CBMC adds kinds/currency identity on all f64; rule wiring: the property's phrases as token lines through rule_tokinizer with config.json's own rule table (dumped natively per run): each phrase is taken by exactly its rule function with the fields bound by name to the right tokens",
+            "convert_money and MoneyItem::calculate for symbolic rates and currencies: amount / rate(A) * rate(B), identity for A = B, left currency kept, scaling by numbers, money/money as plain ratio; update_currency(name, rate) succeeds exactly for a configured code or alias and changes the (symbolic) rate table at exactly that currency to the new rate, so that with convert_money decided for an arbitrary rate table a changed rate takes effect for exactly that currency in all later conversions; CBMC adds kinds/currency identity on all f64; the money literal kernel (PRICE group written in the configured convention, magnitude suffix a symbolic text, currency through the symbolic tables) denotes the amount times the suffix's power of 1000; rule wiring: the property's phrases as token lines through rule_tokinizer with config.json's own rule table (dumped natively per run): each phrase is taken by exactly its rule function with the fields bound by name to the right tokens",
             "rate table lookups are uninterpreted functions of the currency; literal spellings are outside; f64 rounding outside",
             "solver-based: z3 over SMT generated from the MIR of the real functions"),
     "C18": ("M", "translation_validation",
-            "registration bookkeeping: every sequence of <= 4 (quick) / 5 (thorough) calls of add_rule / delete_rule / add_dynamic_type / add_dynamic_type_item with three rule objects whose names are symbolic strings, two languages (one unknown), one family, two indices: return values and resulting rule order / family tables equal a reference list model (add fails only for an unknown language, delete removes the first rule of that name, duplicates rejected without change); API-rule effect: a match calls the rule with fields bound by name and replaces exactly the matched span, a declining rule leaves the line unchanged; a rule with two patterns that declines the match of its first pattern still gets the match of its second; a line with two places matching one pattern has both rewritten, each from its own fields; a user family of four units converts along its declared chain for every ordered pair (programs opaque, order and value threading claimed), also when the steps do not commute; a user-defined unit is recognised in a line (dynamic_type_tokinizer) for a number literal and equally for a variable holding the number, without writing into the unit descriptions",
+            "registration bookkeeping: every sequence of <= 4 (quick) / 5 (thorough) calls of add_rule / delete_rule / add_dynamic_type / add_dynamic_type_item with three rule objects whose names are symbolic strings, two languages (one unknown), one family, two indices: return values and resulting rule order / family tables equal a reference list model (add fails only for an unknown language, delete removes the first rule of that name, duplicates rejected without change); API-rule effect: a match calls the rule with fields bound by name and replaces exactly the matched span, a declining rule leaves the line unchanged; a rule with two patterns that declines the match of its first pattern still gets the match of its second; a line with two places matching one pattern has both rewritten, each from its own fields; a {TEXT:name:EXPECTED} field matches exactly the texts equal to EXPECTED ignoring case, whatever the case of EXPECTED (three symbolic letters each); a user family of four units converts along its declared chain for every ordered pair (programs opaque, order and value threading claimed), also when the steps do not commute; a user-defined unit is recognised in a line (dynamic_type_tokinizer) for a number literal and equally for a variable holding the number, without writing into the unit descriptions",
             "pattern tokenisation of rule strings (add_rule runs the regex tokeniser on its patterns) and user-family conversion arithmetic are outside: rules are registered with empty pattern lists in the bookkeeping spec and with a hand-built pattern in the effect spec",
             "solver-based: z3 over SMT generated from the MIR, call sequences enumerated exhaustively"),
     "C07": ("M", "translation_validation",
@@ -67,7 +67,7 @@ CHECKS = {
             "which texts the number patterns match (regex engine, pattern order in config.json) is outside; the radix reader is decided from the match onwards",
             "solver-based: z3 over MIR + CBMC"),
     "C14": ("M", "translation_validation",
-            "from_unixtime / to_unixtime are mutually inverse for all timestamps of years 1..9999, '<date> as unix' is midnight UTC, the Raw print shows every digit of every such timestamp; a date-time (time, date, number, money, duration) held by a variable is read back by the field getters as exactly the stored value and zone, so 'a = N to ZONE', 'a as unix' returns N; the requested GMT+-h:mm zone denotes sign * (60 h + mm) minutes; DateTimeItem::print reads every calendar and clock field - also the year compared with the running year - from the instant moved into the item's zone; small_date denotes the calendar date written (no two-digit-year expansion); rule wiring: the property's phrases as token lines through rule_tokinizer with config.json's own rule table (dumped natively per run): each phrase is taken by exactly its rule function with the fields bound by name to the right tokens",
+            "from_unixtime / to_unixtime are mutually inverse for all timestamps of years 1..9999, '<date> as unix' is midnight UTC, the Raw print shows every digit of every such timestamp; a date-time (time, date, number, money, duration) held by a variable is read back by the field getters as exactly the stored value and zone, so 'a = N to ZONE', 'a as unix' returns N; the requested GMT+-h:mm zone denotes sign * (60 h + mm) minutes; DateTimeItem::print reads every calendar and clock field - also the year compared with the running year - from the instant moved into the item's zone; small_date denotes the calendar date written (no two-digit-year expansion); '<date> at <time>' is that date at the time's own clock reading whatever zones the two operands carry; a timestamp prints as its digits also under number settings that keep fraction digits; rule wiring: the property's phrases as token lines through rule_tokinizer with config.json's own rule table (dumped natively per run): each phrase is taken by exactly its rule function with the fields bound by name to the right tokens",
             "chrono's from_timestamp/timestamp/and_hms are modelled on (day number, second of day); month names / format strings of the print and at_date spellings are data and outside",
             "solver-based: z3 over SMT generated from the MIR with chrono models"),
 }
